@@ -165,8 +165,13 @@ static void sub_transpose_sum_misc() {
           M cp(a); M as; as = a; M mv(std::move(cp)); ok = mv.nrows == n && mv.ncols == m && mv.nnz == A.nnz() && as.nnz == A.nnz() && as.ncols == m; for (size_t k = 0; ok && k < A.nnz(); ++k) ok = mv.val[k] == A.val[k] && as.val[k] == A.val[k] && mv.col[k] == A.col[k] && as.col[k] == A.col[k];
           c.check(ok, "copy_ctor:value", "copy / assign / move of crs changed the matrix");
           c.check(wellformed(as, n, m, true).empty() && wellformed(mv, n, m, true).empty(), "copy_ctor:malformed", "copied CRS malformed"); }
-        // diagonal (plain and inverted) on square part
-        if (n == m) { for (int inv = 0; inv < 2; ++inv) { auto d = backend::diagonal(a, (bool)inv); bool ok = d->size() == n;
+        // diagonal (plain and inverted) on square part; also for the row-shuffled copy (unsorted rows are valid CRS input)
+        if (n == m) { Csr<double> Ush = vf::shuffle_rows(A, r); M ush = to_amg(Ush);
+          for (int inv = 0; inv < 2; ++inv) { auto du = backend::diagonal(ush, (bool)inv); bool oku = du->size() == n;
+            for (size_t i = 0; oku && i < n; ++i) { bool has = false; double dv = 0; for (auto j = A.ptr[i]; j < A.ptr[i + 1]; ++j) if (A.col[j] == (ptrdiff_t)i) { has = true; dv = A.val[j]; }
+              if (has) { double ref = inv ? (dv == 0 ? 1.0 : 1.0 / dv) : dv; oku = (*du)[i] == ref; } }
+            c.check(oku, inv ? "diagonal_inv:unsorted-rows" : "diagonal:unsorted-rows", "diagonal() of a matrix with unsorted rows differs from the stored diagonal entries"); }
+          for (int inv = 0; inv < 2; ++inv) { auto d = backend::diagonal(a, (bool)inv); bool ok = d->size() == n;
             for (size_t i = 0; ok && i < n; ++i) { bool has = false; double dv = 0; for (auto j = A.ptr[i]; j < A.ptr[i + 1]; ++j) if (A.col[j] == (ptrdiff_t)i) { has = true; dv = A.val[j]; }
               if (has) { double ref = inv ? (dv == 0 ? 1.0 : 1.0 / dv) : dv; ok = (*d)[i] == ref; } }
             c.check(ok, inv ? "diagonal_inv:value" : "diagonal:value", "diagonal() differs from the stored diagonal entries"); } }
@@ -266,11 +271,26 @@ int main(int argc, char **argv) {
     vf::init(argc, argv);
     vf::obs_add("threads_seen", std::to_string(omp_get_max_threads()));
     vf::obs_add("product_algorithm", omp_get_max_threads() > 16 ? "rmerge(product)" : "saad(product)");
-    if (vf::sub_enabled("product_exhaustive")) sub_product_exhaustive();
-    if (vf::sub_enabled("product_random")) sub_product_random();
-    if (vf::sub_enabled("misc")) sub_transpose_sum_misc();
-    if (vf::sub_enabled("transpose_adjoint")) sub_transpose_adjoint();
-    if (vf::sub_enabled("pointwise_exhaustive") || vf::sub_enabled("pointwise_random")) sub_pointwise();
-    if (vf::sub_enabled("spectral_radius")) sub_spectral();
+    // --nested=1: the whole workload is executed by thread 0 of an enclosing parallel region of two threads (nesting is off by
+    // default): the kernels' own parallel regions then get a team of ONE thread while omp_get_max_threads() still reports the
+    // configured count.  Together with the OMP_THREAD_LIMIT job this produces teams smaller than omp_get_max_threads().
+    auto all = [&]() {
+        if (vf::sub_enabled("product_exhaustive")) sub_product_exhaustive();
+        if (vf::sub_enabled("product_random")) sub_product_random();
+        if (vf::sub_enabled("misc")) sub_transpose_sum_misc();
+        if (vf::sub_enabled("transpose_adjoint")) sub_transpose_adjoint();
+        if (vf::sub_enabled("pointwise_exhaustive") || vf::sub_enabled("pointwise_random")) sub_pointwise();
+        if (vf::sub_enabled("spectral_radius")) sub_spectral();
+    };
+    { int team = 0;
+#pragma omp parallel
+      {
+#pragma omp single
+        team = omp_get_num_threads(); }
+      vf::obs_add("team_sizes_seen", std::to_string(team) + "of" + std::to_string(omp_get_max_threads()) + (vf::opt_int("nested", 0) ? "(nested:1)" : "")); }
+    if (vf::opt_int("nested", 0)) {
+#pragma omp parallel num_threads(2)
+        { if (omp_get_thread_num() == 0) all(); }
+    } else all();
     return vf::finish();
 }
